@@ -984,7 +984,7 @@ func (m *Model) matchPat(p Expr, v Val, binds map[string]Val) bool {
 			if lit.K == KNull {
 				return false // rule 1: null against a container is unequal, no error
 			}
-			m.tag("pinned:match-literal-container")
+			// a literal pattern matches when v == literal, and comparing a container is a runtime error (properties C19 + C05/C11)
 			m.fail("cannot compare")
 		}
 		return m.compare(v, lit) == 0
